@@ -47,3 +47,30 @@ out['__functions__'] = funcs
 json.dump(out, open(os.path.join(VERIF, 'spec', 'locals.json'), 'w'), indent=0, sort_keys=True)
 json.dump(outc, open(os.path.join(VERIF, 'spec', 'compares.json'), 'w'), indent=0, sort_keys=True)
 print(n_, 'functions with locals in', len(out) - 1, 'modules;', sum(len(v) for v in outc.values()), 'with comparisons')
+
+# phase 2: the canonical text of every function of the tree the rules are written against (read by canon.towards)
+os.environ['VERIF_NO_TOWARDS'] = '1'
+canon._REF = canon._REFC = canon._REFS = None
+srcs = {}
+for d, _dirs, files in os.walk(os.path.join(REPO, 'cassandra')):
+    for fn in sorted(files):
+        if not fn.endswith('.py'):
+            continue
+        rel = os.path.relpath(os.path.join(d, fn), REPO)
+        tree = canon.canonicalise(ast.parse(open(os.path.join(d, fn)).read()), rel)
+        tab = {}
+
+        def visit2(node, prefix):
+            for ch in ast.iter_child_nodes(node):
+                if isinstance(ch, (ast.FunctionDef, ast.AsyncFunctionDef, ast.ClassDef)):
+                    q = prefix + ch.name
+                    visit2(ch, q + '.')
+                    if isinstance(ch, (ast.FunctionDef, ast.AsyncFunctionDef)):
+                        tab.setdefault(q, []).append(ast.unparse(ch))
+                elif isinstance(ch, (ast.If, ast.Try, ast.With, ast.For, ast.While, ast.ExceptHandler)):
+                    visit2(ch, prefix)
+        visit2(tree, '')
+        if tab:
+            srcs[rel] = tab
+json.dump(srcs, open(os.path.join(VERIF, 'spec', 'reference_src.json'), 'w'), indent=0, sort_keys=True)
+print(sum(len(v) for v in srcs.values()), 'function texts')
